@@ -115,6 +115,20 @@ CLAIMED["C15"] = dict(
     technique=E2 + "; recursion by contract on the real nested code object, NIA with div/mod axiom instances, relational obligation for the two copies",
 )
 
+CLAIMED["C14"] = dict(
+    category="proof",
+    text=("The three copies of _distribute_buffer_sizes / _construct_distributed_buffers / _split_local_dist_buffers are executed on symbolic block byte sizes "
+          "(ties included) with heapq and torch.split/view replaced by their contracts: alignment = next multiple of 64, one owner in [0,G), largest-first onto a "
+          "least-loaded rank, load spread <= largest block, buffer views at owner*max + prefix of same-owner sizes, inside the owner's segment, pairwise disjoint, "
+          "numel*dtype_size bytes, 64-byte aligned, every torch precondition (split sums, view alignment) — for all sizes with the block count enumerated; the "
+          "assignment loop's inductive step is proved for arbitrary block count and G in 1..16 on the mechanically extracted loop body; purity (function of sizes "
+          "and group size only) by AST scan."),
+    design_ref="DESIGN.md §4/C14",
+    note=("heapq / torch.split / view contracts assumed (validated natively); block count enumerated n<=3 (quick) / 4 (thorough), G in 1..3 for whole-function "
+          "obligations; Graham's 4/3 bound cited and validated exhaustively (bounded, n<=7, G<=4); state placement checked natively only"),
+    technique=E2 + "; heap and byte-range view contracts, extracted loop body for the inductive step (LIA)",
+)
+
 NOT_YET = "no check committed yet for this property (work in progress; see DESIGN.md for the planned contract)"
 
 
